@@ -61,8 +61,8 @@ def serde_stage(prop, tier, name):
             if not ev["same_calls"]: why.append("the deserializer was driven differently than by T")
         key = "serde:%s:%s:%s:%s" % (ev["op"], ev["kind"], ev["payload"], "; ".join(why) or "?")
         res["violations"].append({"stage": name, "key": key, "event": ev,
-                                  "errors": ["[serde] %s of %s<%s> with a fault at callback %s%s: %s" % (
-                                      "serialising" if ev["op"] == "ser" else "deserialising in place into" if ev["op"] == "de_in_place" else "deserialising", "Arc" if ev["kind"].startswith("arc") else "UniqueArc",
+                                  "errors": ["[serde] %s %s<%s> with a fault at callback %s%s: %s" % (
+                                      "serialising of" if ev["op"] == "ser" else "deserialising in place into" if ev["op"] == "de_in_place" else "deserialising of", "Arc" if ev["kind"].startswith("arc") else "UniqueArc",
                                       ev["payload"], ev["k"], ((" (input cut to %s tokens)" % ev["cut"]) if ev.get("cut") is not None and ev["op"] != "ser" else "") + ("" if ev.get("human_readable", 1) else " (is_human_readable = false)") + ((" with %s other owner(s)" % ev["others"]) if "others" in ev else ""),
                                       "; ".join(why) or "not a behaviour of Serde.tla")]})
         rest = [rest[0]] + rest[i + 1:]
